@@ -18,6 +18,7 @@
 //	ret J ok|err|cancel       tell run J to return nil / an error / ctx.Err() once its ctx is cancelled
 //	retk K ok|err|cancel      the same for the oldest run of key K that has not been told yet
 //	probe J | probek K | probeall    log ctx.Err() of run(s) that have not been told to return
+//	nilnext K                 the constructor returns a nil Routine at its next call for key K
 //	advance | settle | pause
 package keyed
 
@@ -143,12 +144,18 @@ func exec(script []string, opt comp.Options) (res comp.Result) {
 	var mu sync.Mutex
 	var runs []*run
 	nctor := map[int]int{}
+	nilNext := map[int]bool{}
 	var wg sync.WaitGroup
 	ctor := func(key int) (keyed.Routine, int) {
 		// called with the Keyed mutex held, in the driver goroutine
 		nctor[key]++
 		d := nctor[key]
 		log.Add("cbin ctor %d %d", key, d)
+		if nilNext[key] {
+			delete(nilNext, key)
+			tags.Add("nil-routine")
+			return nil, d
+		}
 		return func(ctx context.Context) error {
 			wg.Add(1)
 			defer wg.Done()
@@ -475,6 +482,10 @@ func exec(script []string, opt comp.Options) (res comp.Result) {
 			for _, r := range activeOf(-1) {
 				probe(r)
 			}
+		case "nilnext":
+			k := atoi(arg(1))
+			log.Add("env nilnext %d", k)
+			nilNext[k] = true
 		case "pause":
 			time.Sleep(time.Duration(rng.Intn(120)) * time.Microsecond)
 		case "settle":
@@ -595,6 +606,7 @@ func gen(rng *rand.Rand, tier string) []string {
 	how := func() string { return []string{"ok", "err", "err", "cancel"}[rng.Intn(4)] }
 	rs := func() string { return []string{"restart", "norestart"}[rng.Intn(2)] }
 	nrefs := 0
+	nilScenario := rng.Intn(16) == 0 // a few scenarios have constructors that return nil routines
 	if rng.Intn(5) != 0 {
 		out = append(out, "setctx 1 norestart")
 	}
@@ -665,6 +677,9 @@ func gen(rng *rand.Rand, tier string) []string {
 			if c == 0 {
 				out = append(out, "probeall")
 			}
+		case r < 81 && nilScenario:
+			k := key()
+			out = append(out, fmt.Sprintf("nilnext %d", k), fmt.Sprintf("reset %d", k))
 		case r < 84:
 			out = append(out, "settle")
 		case r < 87:
@@ -700,6 +715,10 @@ func init() {
 			{"config plain nodelay noretry", "setctx 1 norestart", "setkey 1 start", "setkey 2 start", "settle", "removekey 1", "probek 1", "setctx 0 norestart", "probeall", "retk 1 cancel", "retk 2 cancel", "advance"},
 			// refcount: references taken after RemoveKey are the only live ones
 			{"config rc nodelay noretry", "setctx 1 norestart", "addref 1", "addref 1", "rcremove 1", "getkeys", "addref 1", "release 2", "getkeys", "release 0", "release 1", "addref 1", "getkeysdata", "release 3", "getkeys"},
+			// D17: ResetRoutine whose constructor returns a nil Routine forgets the exit channel of the routine it replaces
+			{"config plain nodelay noretry", "setctx 1 norestart", "setkey 1 start", "settle", "nilnext 1", "reset 1", "reset 1", "settle", "probeall", "ret 0 ok", "settle", "retk 1 ok", "advance"},
+			// a nil routine is never started; the key behaves like any other
+			{"config plain delay noretry", "setctx 1 norestart", "nilnext 1", "setkey 1 start", "setkey 2 start", "getkeysdata", "restart 1", "setctx 2 restart", "removekey 1", "setkey 1 start", "advance", "getkeysdata", "removekey 1", "advance", "getkeys", "setkey 1 start", "advance", "probeall"},
 			// a routine that returned nil is still subject to the release delay
 			{"config plain delay noretry", "setctx 1 norestart", "setkey 1 start", "settle", "retk 1 ok", "settle", "removekey 1", "getkeys", "getkey 1", "advance", "getkeys"},
 			// a failed routine is removed at once even with a delay; retry then stops
